@@ -36,10 +36,25 @@ Qed.
 Lemma no_lf_app : forall a b, no_lf (a ++ b) = no_lf a && no_lf b.
 Proof. intros. unfold no_lf. apply forallb_app. Qed.
 
+Lemma pq_no_lf : forall X, forallb pq X = true -> no_lf X = true.
+Proof.
+  intros X H. unfold no_lf. apply forallb_forall. intros c Hc. rewrite forallb_forall in H. specialize (H c Hc).
+  unfold pq in H. apply negb_true_iff in H. apply orb_false_iff in H as [_ H]. now rewrite H.
+Qed.
+
+Lemma qrender_no_lf : forall t, qsafe t = true -> no_lf (qrender t) = true.
+Proof.
+  induction t as [s|s|ws|a IHa b IHb c IHc]; intro Hs.
+  1-3: apply pq_no_lf; now apply qleaf_pq.
+  cbn [qsafe] in Hs. apply andb_true_iff in Hs as [Hs Hc]. apply andb_true_iff in Hs as [Hs _].
+  apply andb_true_iff in Hs as [Hs Hb]. apply andb_true_iff in Hs as [Ha _].
+  cbn [qrender]. rewrite !no_lf_app, IHa, IHb, IHc by assumption. reflexivity.
+Qed.
+
 Lemma rterm_shape : forall R v, rterm R v ->
   hd_not is_ws R = true /\ starts_with [cHASH] R = false /\ last_not is_ws R = true /\ no_lf R = true /\ R <> [].
 Proof.
-  intros R v H. destruct H as [s H|s H|v].
+  intros R v H. destruct H as [s H|s H|v|a b c H].
   - unfold angle. repeat split; try reflexivity; try discriminate.
     + change (cLT :: s ++ [cGT]) with ((cLT :: s) ++ [cGT]). now rewrite last_not_app by discriminate.
     + change (cLT :: s ++ [cGT]) with ([cLT] ++ s ++ [cGT]). rewrite !no_lf_app, (iri_chars_no_lf s H). reflexivity.
@@ -60,6 +75,10 @@ Proof.
         rewrite forallb_forall in Hp. specialize (Hp c Hc). unfold plain_char in Hp.
         apply andb_true_iff in Hp as [Hp _]. now apply andb_true_iff in Hp as [Hp _]. }
       now rewrite Hn.
+  - repeat split; try reflexivity.
+    + cbn [qrender]. rewrite !app_assoc. now rewrite last_not_app by discriminate.
+    + now apply qrender_no_lf.
+    + cbn [qrender]. discriminate.
 Qed.
 
 (* ---- clean_ntriples_term on rendered terms ------------------------------------------------------------------------ *)
@@ -77,13 +96,16 @@ Qed.
 
 Lemma clean_nt_rterm : forall R v, rterm R v -> clean_nt R = v.
 Proof.
-  intros R v H. unfold clean_nt. destruct H as [s H|s H|v].
+  intros R v H. unfold clean_nt. destruct H as [s H|s H|v|a b c H].
   - rewrite trim_angle, angle_not_ltlt by assumption. cbn [andb].
     rewrite ends_with_angle. cbn [angle starts_with N.eqb andb]. rewrite N.eqb_refl. cbn [andb].
     change (cLT :: s ++ [cGT]) with (angle s). apply strip1_angle.
   - destruct (wf_bnode_plain s H) as (_ & Ht & _). rewrite Ht.
     destruct (wf_bnode_shape s H) as (c & r & -> & _). reflexivity.
   - rewrite trim_quoted. rewrite decode_quoted. reflexivity.
+  - rewrite qrender_trim. replace (starts_with sLTLT (qrender (QQt a b c))) with true by reflexivity.
+    replace (ends_with sGTGT (qrender (QQt a b c))) with true; [reflexivity|].
+    cbn [qrender]. rewrite !app_assoc. symmetry. apply ends_with_app.
 Qed.
 
 (* ---- encode_term_star is the identity on values outside the double-decoding class -------------------------------------- *)
